@@ -35,6 +35,7 @@ type c01Job struct {
 	Batch  int    `json:"batch"`
 	Conc   int    `json:"conc"`
 	Faults bool   `json:"faults"`
+	Free   bool   `json:"free"` // step boundaries are free switches (every step-granular interleaving at bound 0)
 }
 
 type c01Case struct {
@@ -48,8 +49,10 @@ func init() {
 		ID:        "C01",
 		Level:     "model_checking",
 		Technique: "stateless model checking of the real pipeline (controlled scheduler over instrumented code, fake Postgres, simulated node): all interleavings of task steps with head growth up to a preemption bound, all single transient faults, over a bounded-exhaustive family of chains x declaration shapes x batch x concurrency; oracle = independent projection of the chain",
-		Rule: "jobs = 6 declaration shapes (log/array-log/all-indexed-log/tx/receipt/trace) x chain words over block kinds {empty, 1 tx 1 log, decoys, 2 tx 2 logs, tx without logs} (all words of length 3 over 3 kinds + longer hand-picked; thorough: all words up to length 4 over 5 kinds) x start in {1, 3, head} x all (batch,conc) in 1..5 x 1..4; " +
-			"per job every schedule of {task thread, environment thread revealing the chain in two growth steps} with <= 1 preemption (thorough 2), and on fault jobs every single injected RPC/SQL fault at every I/O point. An execution is non-trivial when at least one row was emitted; distinct = distinct (job, choice sequence).",
+		Rule: "jobs = 6 declaration shapes (log / array-log / all-indexed log / tx / receipt / trace) x chain words over block kinds {e empty, a 1 tx 1 log, b decoys (other signature, wrong topic count, other address), c 2 tx 2 logs, d tx without logs} x start in {1, 3, head} x (batch,conc): " +
+			"quick = all 27 words of length 3 over {e,a,b} with (1,1),(3,2) and two 5-letter words with all 20 pairs in 1..5 x 1..4; thorough = all words of length 2..4 over 5 kinds with 5 pairs and seven 5-letter words with all 20 pairs. " +
+			"Per job every schedule of {task thread stepping until the final head, environment thread revealing the last two blocks in two growth operations} with <= 1 deviation (a preemption at any JSON-RPC exchange or step boundary, or a reordering of load partitions; thorough: <= 2 deviations and every step-granular interleaving for free), " +
+			"and on fault jobs every single injected RPC/SQL fault (rpc error, transport error, SQL error, connection drop) at every I/O point. An execution is non-trivial when at least one row was emitted; distinct = distinct (job, choice sequence).",
 		Assumptions: []string{
 			"fake Postgres (h/simpg) interprets the SQL shovel sends; simulated node (h/simeth) answers like a well-behaved geth; see DESIGN.md §7",
 			"trace and receipt plans: a block without transactions answers [] (as real nodes do)",
@@ -73,7 +76,7 @@ func c01Jobs(thorough bool) []c01Job {
 						continue
 					}
 					for _, bc := range pairs {
-						jobs = append(jobs, c01Job{Shape: sh, Word: w, Start: st, Batch: bc[0], Conc: bc[1],
+						jobs = append(jobs, c01Job{Shape: sh, Word: w, Start: st, Batch: bc[0], Conc: bc[1], Free: thorough,
 							Faults: faultWords[w] && ((bc[0] == 1 && bc[1] == 1) || (bc[0] == 3 && bc[1] == 2))})
 					}
 				}
@@ -277,7 +280,11 @@ func c01Exec(j c01Job, p *c01Prep, ch vrt.Chooser, states *vrt.StateSet, trace b
 		tt := w.V.GoNamed("task", func() {
 			maxSteps := 4*int(finalHead) + 10
 			for s := 0; s < maxSteps; s++ {
-				vrt.Boundary("step")
+				if j.Free {
+					vrt.Boundary("step")
+				} else {
+					vrt.Yield("boundary:step")
+				}
 				if w.V.Closing() {
 					return
 				}
